@@ -157,6 +157,43 @@ def tlc_model_check(ctx, module, cfg, **kw):
     return res
 
 
+def validate_trace(ctx, module, cfg, tracefile, *, timeout=600, name=None, deque=False, heap="8g"):
+    """Channel B: check a recorded ndjson trace against a trace specification with TLC (-workers 1).
+    Returns dict(accepted, violated, prefix, events). A trace that is not a behaviour of the spec, or on which a
+    property invariant fails, is a verdict about the code; everything else is MachineryError."""
+    with open(tracefile) as f:
+        n = sum(1 for _ in f)
+    if n == 0:
+        raise MachineryError("empty trace " + tracefile)
+    dst = os.path.join(ctx.scratch, "trace.ndjson")
+    if os.path.abspath(tracefile) != dst:
+        shutil.copy(tracefile, dst)
+    res = tlc(ctx, module, cfg, workers=1, timeout=timeout, extra_files=[dst], name=name or cfg.replace(".cfg", ""), deque=deque, heap=heap)
+    out = res["out"]
+    r = {"events": n, "accepted": False, "violated": None, "prefix": None, "out": out}
+    if res.get("timeout"):
+        raise MachineryError("trace validation timed out (%s, %d events)" % (cfg, n))
+    m = re.search(r'"TRACE_REJECTED_AT",\s*(\d+),\s*(.*?)>>\s*\n', out, re.S)
+    if res["violated"] and res["violated"] not in ("deadlock",):
+        r["violated"] = res["violated"]
+        ms = re.findall(r"^State (\d+):", out, re.M)
+        r["prefix"] = int(ms[-1]) - 1 if ms else None
+    elif m:
+        r["prefix"] = int(m.group(1))
+        r["event"] = " ".join(m.group(2).split())[:400]
+    elif res["finished"]:
+        r["accepted"] = True
+        ctx.traces += 1
+        ctx.trace_events += n
+        if "distinct" in res:
+            ctx.states += res["distinct"]
+            ctx.transitions += res["generated"]
+    else:
+        raise MachineryError("trace validation did not complete (%s):\n%s" % (cfg, "\n".join(out.splitlines()[-40:])))
+    ctx.log("trace %s: %d events, %s" % (res["name"], n, "accepted" if r["accepted"] else ("INVARIANT %s" % r["violated"] if r["violated"] else "REJECTED at event %s" % r["prefix"])))
+    return r
+
+
 # --------------------------------------------------------------------------- go harness
 
 def overlay(ctx, pkgs, extra=None):
@@ -198,6 +235,20 @@ def go_harness(ctx, pkg, test, *, env=None, tags="verif", timeout=600, race=Fals
     t0 = time.time()
     rc, out = run(ctx, cmd, timeout, env=e, cwd=REPO)
     wall = time.time() - t0
+    if not os.path.exists(outp) and rc not in (0, -9) and re.search(r"^(panic: |fatal error: |unexpected fault address)", out, re.M):
+        # the test process died inside the code under test (harness panics are recovered and reported
+        # through the report file, and never occur on the unchanged tree): real-code behaviour
+        head = [l for l in out.splitlines() if l.strip()][:1]
+        m = re.search(r"^(panic: .*|fatal error: .*|unexpected fault address.*)$", out, re.M)
+        frames = re.findall(r"^(github.com/panjf2000/gnet/v2[^\s(]*)\(", out, re.M)
+        gframes = [f for f in frames if "zz_verif" not in f and "internal/vsup" not in f]
+        rep = {"name": name, "evaluations": 1, "distinct_nontrivial": 0, "samples": [], "extra": {},
+               "findings": [{"kind": "violation", "sig": "%s/crash" % name, "count": 1,
+                             "detail": "the test process crashed: %s (gnet frames: %s)" % (m.group(1) if m else head, ", ".join(gframes[:4]) or "none"),
+                             "path": []}], "wall": time.time() - t0, "stdout": out}
+        ctx.harness_runs.append({"name": name, "pkg": pkg, "crashed": True})
+        ctx.log("harness %s: CRASHED: %s" % (name, m.group(1) if m else head))
+        return rep
     if not os.path.exists(outp):
         raise MachineryError("harness %s/%s produced no report (rc=%s):\n%s" % (pkg, test, rc, "\n".join(out.splitlines()[-60:])))
     if rc != 0 and not allow_fail:
